@@ -16,6 +16,47 @@ import rules_lm
 BOTH = ("default", "parallel")
 
 
+# one-line statements of the rules that were added to properties after the explanations above were written: appended to
+# the explanation (MANIFEST level text, evidence coverage.explanation) so that what a check claims is what it runs
+RULE_LINES = {
+    "R-NO-HISTORY": "every update replaces the cache on every path (no value computed for earlier parameters survives; no interior mutability)",
+    "R-OBS-RESHAPE": "observations are stored exactly as supplied",
+    "R-WEIGHTS-CTOR": "supplied weights are stored unchanged as Diagonal(v)",
+    "R-CLONE-IDENTITY": "Clone / clone_from of the state types copy every field to itself",
+    "R-WHO-WRITES": "LevMarProblem fields are private, written only in set_params, no &mut handed out, constructed only by build()/into_*/Clone",
+    "R-NO-SHADOW": "no public inherent method shadows a trait method with a different result",
+    "R-SETTER-FRAME": "every public function returning a builder keeps all roles except its own (threshold: Some(|eps|)); no unreviewed constructor",
+    "R-PROBLEM-BUILD-TABLE": "build() decision table per weights variant; weight length compared with the ROW count",
+    "R-DATA-WEIGHT-ONCE": "stored data = W*Y exactly once, decided per weights variant",
+    "R-ROW-SCALING": "&Weights*M is M for Unit and the diagonal product for Diagonal (per variant); every column scaled",
+    "R-COEF-SOLVE": "coefficients = solve(svd(W*Phi, U, V), Y_w, eps) with an SVD entry point whose tolerance is not caller-controlled",
+    "R-CHECKED-CALLS": "a basis function / derivative output of the wrong length (shorter or longer) is an error, never copied",
+    "R-STATS-ARGS": "the statistics are computed from the roles of the one fitted problem",
+    "R-RESID-TERM": "cached residuals = Y_w - W*Phi*c with the cached c",
+    "R-FIT-MAP": "fit() returns Ok exactly under was_successful (decision may sit in a private helper)",
+    "R-CHI2": "reduced chi2 = |r_w|^2 / dof, standard error = sqrt",
+    "R-DOF-GUARD": "dof = N-(M+P) (stored or derived from stored shapes), subtraction guarded, Err(Underdetermined) iff N <= M+P",
+    "R-STATS-SEALED": "FitStatistics: private fields, single constructor, never written after construction",
+    "R-MODEL-SEALED": "SeparableModel: private fields, only the parameter vector written and only in set_params, built only by the builder",
+    "R-MODEL-VALUE-SETTERS": "initial_parameters / independent_variable store Some(argument) in their own role only",
+    "R-NAME-CONVERSION": "names become Strings only from their AsRef<str> view",
+    "R-DECLARED-ORDER": "functions and derivatives are wrapped with the stored name lists in declared order",
+}
+
+
+def _augment_explanations():
+    for pid, spec in PROPS.items():
+        extra = []
+        for r in spec["rules"]:
+            line = RULE_LINES.get(r[0])
+            if line and r[0] not in spec["explanation"] and line not in extra:
+                extra.append("%s: %s" % (r[0], line))
+        if extra:
+            spec["explanation"] = spec["explanation"].rstrip() + " Also run: " + "; ".join(extra) + "."
+
+
+
+
 def make_eval(F):
     # the two weight-multiplication operators stay symbolic (W·M); their bodies are
     # checked separately by R-ROW-SCALING
@@ -403,3 +444,6 @@ PROPS["C17"] = {
                    "allocation in eval/eval_partial_deriv is dominated by the parameter-count (and index) guards; Err(DerivativeIndexOutOfBounds) only under index >= number of parameters; results are allocated |x| x |functions|.",
     "not_decided": [],
 }
+
+
+_augment_explanations()
